@@ -117,10 +117,16 @@ def metaExc : MetaDefect → ValExc
 
 /-- the request-reading `try` of the unary / init shells: `some r` = refused while reading or validating -/
 def readPhase (t : Tables) (parse : ParseExc → Option Nat) (val : ValExc → Option Nat)
-    (deser : DeserExc → Option Nat) : Body → Option Resp
+    (deser : DeserExc → Option Nat) (noVersionGate lenientParams : Bool) : Body → Option Resp
   | .valid => none
   | .cancel => none                          -- `vgi_rpc.cancel` is not looked at here
-  | .badValue e => some (tableResponse t (deser e))   -- `_deserialize_params` raises `e`
+  | .badValue e =>
+    if lenientParams then none else some (tableResponse t (deser e))   -- `_deserialize_params` raises `e`
+  | .badMeta .protocolVersion =>
+    -- the protocol-version gate (not applied to `__describe__` where exempted, nor on the upload-URL route)
+    if noVersionGate then none else some (tableResponse t (val (metaExc .protocolVersion)))
+  | .badParams .mismatch =>
+    if lenientParams then none else some (tableResponse t (val .typeError))
   | .parseFail .ipcError =>
     -- `_read_request` may itself refuse an invalid request batch as RpcError("ProtocolError")
     some (tableResponse t (if t.readWrapsBatchValidation then val .rpcError else parse .ipcError))
@@ -129,7 +135,6 @@ def readPhase (t : Tables) (parse : ParseExc → Option Nat) (val : ValExc → O
     some (tableResponse t (if t.readWrapsEmptyStream then val .rpcError else parse .stopIteration))
   | .parseFail e => some (tableResponse t (parse e))
   | .badMeta m => some (tableResponse t (val (metaExc m)))
-  | .badParams .mismatch => some (tableResponse t (val .typeError))
   | .badParams .badNames =>
     -- raised when the kwargs are built; `_read_request` may wrap that as RpcError("ProtocolError")
     some (tableResponse t (if t.readWrapsKwargs then val .rpcError else parse .unicodeDecode))
@@ -140,7 +145,13 @@ def unaryResource (t : Tables) (rq : Req) : Resp :=
   | some r => r
   | none =>
     if cmpRefuses t.unaryGuardOp rq.kind.isStream then errorResponse t t.unaryGuardStatus
-    else match readPhase t t.unaryParse t.unaryVal t.unaryDeser rq.body with
+    else if rq.kind = .describe then
+      -- the pre-built `__describe__` batch: no implementation call, no cap check
+      if t.describeBeforeRead then inband t 200
+      else match readPhase t t.unaryParse t.unaryVal t.unaryDeser t.describeExemptFromVersionGate false rq.body with
+        | some r => r
+        | none => inband t 200
+    else match readPhase t t.unaryParse t.unaryVal t.unaryDeser false false rq.body with
       | some r => r
       | none =>
         match rq.beh with
@@ -154,7 +165,7 @@ def initResource (t : Tables) (rq : Req) : Resp :=
   | some r => r
   | none =>
     if cmpRefuses t.initGuardOp rq.kind.isStream then errorResponse t t.initGuardStatus
-    else match readPhase t t.initParse t.initVal t.initDeser rq.body with
+    else match readPhase t t.initParse t.initVal t.initDeser false false rq.body with
       | some r => r
       | none =>
         match rq.beh with
@@ -208,11 +219,24 @@ def exchangeResource (t : Tables) (rq : Req) : Resp :=
               | .overshoot => inband t t.exchangeOvershoot
               | .ok => inband t 200
 
+/-- `_UploadUrlResource.on_post`: content type, `_read_request` + method check, then the provider.  The route is
+    literal (the method kind of the URL plays no role); it takes one optional `count` and ignores other columns;
+    there is no protocol-version gate on it. -/
+def uploadResource (t : Tables) (rq : Req) : Resp :=
+  if t.uploadChecksContentType && ctypeRefused t.contentTypeOp rq.ctype then errorResponse t t.contentTypeStatus
+  else match readPhase t t.uploadParse t.uploadVal (fun _ => none) true true rq.body with
+    | some r => r
+    | none =>
+      match rq.beh with
+      | .raises | .turnRaises => inband t t.uploadFail
+      | .ok | .overshoot => inband t 200
+
 def resource (t : Tables) (rq : Req) : Resp :=
   match rq.route with
   | .unary => unaryResource t rq
   | .init => initResource t rq
   | .exchange => exchangeResource t rq
+  | .uploadUrl => uploadResource t rq
 
 /-- the whole server: middleware chain, then routing to the resource -/
 def respondWith (t : Tables) (rq : Req) : Resp :=
